@@ -37,8 +37,28 @@ def graph_body(rng, depth=0):
     return "(, %s)" % step()                                        # self-loop branch
 
 
+MIXED_NODES = ["0", "1", '""', '"x"', "[]", "[0]", '"ab"', "2", '[""]', "T_STR"]
+
+
+def graph_body_mixed(rng):
+    """a body over a small finite graph whose nodes are values of DIFFERENT types (constants, strings, sequences): the
+    seen-set then has to order stacks holding different types in the same slot.  Returns (body, nodes)"""
+    nodes = rng.sample(MIXED_NODES, rng.choice([3, 4, 5]))
+    edges = []
+    for i, v in enumerate(nodes):
+        outs = set([nodes[(i + 1) % len(nodes)]]) if rng.random() < 0.8 else set()
+        if rng.random() < 0.5:
+            outs.add(rng.choice(nodes))
+        for w in sorted(outs):
+            edges.append("?(dup %s ?eq) drop %s" % (v, w))
+    rng.shuffle(edges)
+    return "(%s)" % ", ".join(edges), nodes
+
+
 def run(ctx):
-    ctx.prove("ZwVerif.Props.C10", THEOREMS)
+    ctx.prove("ZwVerif.Props.C10", THEOREMS + ["ZwVerif.Closure." + t for t in
+              ["star_sound_complete", "plus_sound_complete", "drain_inv", "next_some", "next_none", "drain_inv_plus", "plus_first_pull"]],
+              extra_targets=["ZwVerif.Props.C10Closure"])
     h = zwcorr.Harness(ctx, secs=3)
     rng = ctx.rng
     n = 500 if ctx.tier == "quick" else 15000
@@ -51,6 +71,18 @@ def run(ctx):
         rp = json.load(open(ctx.replay))
         progs = [rp["input"]] if isinstance(rp.get("input"), str) else list(rp["input"])
         n = 0
+    multi = set()
+    for _ in range(n // 4):
+        b, nodes = graph_body_mixed(rng)
+        start = rng.choice(nodes)
+        many = rng.random() < 0.3
+        if many:
+            start = "(%s, %s)" % (start, rng.choice(nodes))
+        if rng.random() < 0.3:
+            start = "%s %s" % (rng.choice(['7', '"k"', "[]"]), start)          # a second slot below
+        progs.append("%s %s%s" % (start, b, rng.choice(["*", "+", "*", "+*"])))
+        if many:
+            multi.add(progs[-1])
     for _ in range(n):
         starts = rng.choice(["0", "1", "(0, 1)", "(0, 2, 3)", "(1, 1)", "(0, 1) (0, 1) add"])
         b = graph_body(rng)
@@ -66,7 +98,7 @@ def run(ctx):
     # exactly-once, per input, on the implementation: run each start stack separately
     dup = 0
     for p, i in zip(progs, irecs):
-        if i.err or "(0, 1)" in p or "(0, 2, 3)" in p or "(1, 1)" in p or p.startswith("(") or p.startswith("["):
+        if i.err or p in multi or "(0, 1)" in p or "(0, 2, 3)" in p or "(1, 1)" in p or p.startswith("(") or p.startswith("["):
             continue
         if p.rstrip().endswith(")*") or p.rstrip().endswith(")+"):
             seen = collections.Counter(NOPOS.sub("", r) for r in i.res)
